@@ -3,6 +3,7 @@
 package dblookupext
 
 import (
+	"bytes"
 	"fmt"
 	"sync"
 
@@ -153,13 +154,8 @@ func (hr *historyRepository) recordMiniblock(blockHeaderHash []byte, blockHeader
 		return err
 	}
 
-	if hr.hasRecentlyInsertedMiniblockMetadata(miniblockHash, epoch) {
+	if hr.hasRecentlyInsertedMiniblockMetadata(miniblockHash, blockHeaderHash, epoch) {
 		return nil
-	}
-
-	err = hr.epochByHashIndex.saveEpochByHash(miniblockHash, epoch)
-	if err != nil {
-		return newErrCannotSaveEpochByHash("miniblock", miniblockHash, err)
 	}
 
 	miniblockMetadata := &MiniblockMetadata{
@@ -173,12 +169,12 @@ func (hr *historyRepository) recordMiniblock(blockHeaderHash []byte, blockHeader
 		DestinationShardID: miniblock.GetReceiverShardID(),
 	}
 
-	err = hr.putMiniblockMetadata(miniblockHash, miniblockMetadata)
+	err = hr.insertMiniblockMetadata(miniblockHash, miniblockMetadata)
 	if err != nil {
 		return err
 	}
 
-	hr.markMiniblockMetadataAsRecentlyInserted(miniblockHash, epoch)
+	hr.markMiniblockMetadataAsRecentlyInserted(miniblockHash, blockHeaderHash, epoch)
 
 	for _, txHash := range miniblock.TxHashes {
 		errPut := hr.miniblockHashByTxHashIndex.Put(txHash, miniblockHash)
@@ -191,13 +187,45 @@ func (hr *historyRepository) recordMiniblock(blockHeaderHash []byte, blockHeader
 	return nil
 }
 
+// insertMiniblockMetadata saves the record of a miniblock that is committed within a given block.
+// If the miniblock has been recorded before, within another block (e.g. a block on a fork, dropped in the meantime),
+// the new record replaces the old one, but keeps the notarization coordinates received so far (they refer to the miniblock, not to the block).
+// The critical section is shared with the consumption of notifications, so that this put() does not compete with a patch() of the old record.
+func (hr *historyRepository) insertMiniblockMetadata(miniblockHash []byte, metadata *MiniblockMetadata) error {
+	hr.consumePendingNotificationsMutex.Lock()
+	defer hr.consumePendingNotificationsMutex.Unlock()
+
+	previousMetadata, err := hr.getMiniblockMetadataByMiniblockHash(miniblockHash)
+	if err == nil {
+		metadata.NotarizedAtSourceInMetaNonce = previousMetadata.NotarizedAtSourceInMetaNonce
+		metadata.NotarizedAtSourceInMetaHash = previousMetadata.NotarizedAtSourceInMetaHash
+		metadata.NotarizedAtDestinationInMetaNonce = previousMetadata.NotarizedAtDestinationInMetaNonce
+		metadata.NotarizedAtDestinationInMetaHash = previousMetadata.NotarizedAtDestinationInMetaHash
+	}
+
+	err = hr.epochByHashIndex.saveEpochByHash(miniblockHash, metadata.Epoch)
+	if err != nil {
+		return newErrCannotSaveEpochByHash("miniblock", miniblockHash, err)
+	}
+
+	return hr.putMiniblockMetadata(miniblockHash, metadata)
+}
+
 func (hr *historyRepository) computeMiniblockHash(miniblock *block.MiniBlock) ([]byte, error) {
 	return core.CalculateHash(hr.marshalizer, hr.hasher, miniblock)
 }
 
-func (hr *historyRepository) hasRecentlyInsertedMiniblockMetadata(miniblockHash []byte, epoch uint32) bool {
+// hasRecentlyInsertedMiniblockMetadata tells whether the most recent record of the miniblock (in the given epoch) has been inserted for the same block.
+// A competing block (other header hash) holding the same miniblock is not a duplicate: its record has to replace the one of the dropped block.
+func (hr *historyRepository) hasRecentlyInsertedMiniblockMetadata(miniblockHash []byte, blockHeaderHash []byte, epoch uint32) bool {
 	key := hr.buildKeyOfDeduplicationCacheForInsertMiniblockMetadata(miniblockHash, epoch)
-	return hr.deduplicationCacheForInsertMiniblockMetadata.Has(key)
+	value, ok := hr.deduplicationCacheForInsertMiniblockMetadata.Get(key)
+	if !ok {
+		return false
+	}
+
+	recordedBlockHeaderHash, ok := value.([]byte)
+	return ok && bytes.Equal(recordedBlockHeaderHash, blockHeaderHash)
 }
 
 // When building the key for the deduplication cache, we must take into account the epoch as well, in order to handle this case:
@@ -208,9 +236,9 @@ func (hr *historyRepository) buildKeyOfDeduplicationCacheForInsertMiniblockMetad
 	return []byte(fmt.Sprintf("%d_%x", epoch, miniblockHash))
 }
 
-func (hr *historyRepository) markMiniblockMetadataAsRecentlyInserted(miniblockHash []byte, epoch uint32) {
+func (hr *historyRepository) markMiniblockMetadataAsRecentlyInserted(miniblockHash []byte, blockHeaderHash []byte, epoch uint32) {
 	key := hr.buildKeyOfDeduplicationCacheForInsertMiniblockMetadata(miniblockHash, epoch)
-	_ = hr.deduplicationCacheForInsertMiniblockMetadata.Put(key, nil, 0)
+	_ = hr.deduplicationCacheForInsertMiniblockMetadata.Put(key, blockHeaderHash, len(blockHeaderHash))
 }
 
 // GetMiniblockMetadataByTxHash will return a history transaction for the given hash from storage
